@@ -134,7 +134,10 @@ void ezc3d::Header::write(std::fstream &f) const
         f.write(reinterpret_cast<const char*>(&_eventsDisplay[i]), 1*ezc3d::DATA_TYPE::WORD);
     f.write(reinterpret_cast<const char*>(&_emptyBlock3), 1*ezc3d::DATA_TYPE::WORD);
     for (unsigned int i = 0; i < _eventsLabel.size(); ++i){
-        const char* event = _eventsLabel[i].c_str();
+        // The label is a field of 4 characters: a shorter label is padded instead of writing what follows it in memory
+        char event[2*ezc3d::DATA_TYPE::WORD] = {0, 0, 0, 0};
+        for (size_t j = 0; j < _eventsLabel[i].size() && j < 2*ezc3d::DATA_TYPE::WORD; ++j)
+            event[j] = _eventsLabel[i][j];
         f.write(event, 2*ezc3d::DATA_TYPE::WORD);
     }
     for (int i=0; i<22; ++i)
